@@ -652,4 +652,203 @@ theorem loadBottom_window (f : FS) (h : bottomCount f ≤ maxPinned) (n : Nat) :
 example : loadBottom (coldRead (reloadBottom ⟨true, List.replicate 640 7⟩)) =
     .recs .ok ((List.range' 1 5).map (fun i => (i, List.replicate 128 7))) := by decide +kernel
 
+/-! #### the request layer: a looked-up name is confirmed before its record is touched -/
+
+/-- regenerated: cmsys.GetRecord compares the hit with the requested name; bbs.DeleteArticles compares
+the article id of the hit with the requested id (not merely its create-time). -/
+theorem lookup_confirmations :
+    Gen.RecFile.getRecordConfirmsName = true ∧ Gen.RecFile.deleteConfirmsArticleID = true ∧
+    Gen.RecFile.deleteConfirmsCreateTimeOnly = false := by decide
+
+theorem getRecordReq_eq (s : FS) (name : List Nat) : getRecordReq s name = getRecordG true s name := by
+  unfold getRecordReq; rw [lookup_confirmations.1]
+
+theorem delConfirm_eq : delConfirm = .articleID := by
+  unfold delConfirm; rw [lookup_confirmations.2.2]; rfl
+
+/-- whatever index the search returns (it falls back to the nearest entry for an absent name), a hit of the
+confirmed lookup is an existing complete record that carries the requested name. -/
+theorem getRecord_hit_spec (s : FS) (name : List Nat) (i : Nat) (r : List Nat)
+    (h : getRecordG true s name = .hit i r) :
+    1 ≤ i ∧ i ≤ s.bytes.length / dirSz ∧ r = record s.bytes dirSz (i - 1) ∧ fnEq name (recName r) = true := by
+  unfold getRecordG at h
+  by_cases hp : s.present = true
+  · simp only [hp, if_true] at h
+    by_cases hc : s.bytes.length / dirSz = 0
+    · rw [if_pos hc] at h; cases h
+    · rw [if_neg hc] at h
+      cases hct : C13.fnCreateTime name with
+      | none => rw [hct] at h; cases h
+      | some ct =>
+        rw [hct] at h
+        simp only [] at h
+        generalize C06.findRecordStartIdx _ _ _ _ _ = res at h
+        cases res with
+        | error e => cases e <;> cases h
+        | ok j =>
+          simp only [] at h
+          by_cases hj : 1 ≤ j ∧ j ≤ ((s.bytes.length / dirSz : Nat) : Int)
+          · rw [if_pos hj] at h
+            by_cases he : fnEq name (recName (record s.bytes dirSz (j.toNat - 1))) = true
+            · rw [if_pos he] at h
+              injection h with h1 h2
+              subst h1; subst h2
+              exact ⟨by omega, by omega, rfl, he⟩
+            · rw [if_neg he] at h; cases h
+          · rw [if_neg hj] at h; cases h
+  · have hp' : s.present = false := by simpa using hp
+    simp only [hp', Bool.false_eq_true, if_false, if_true] at h
+    cases h
+
+/-- ptt.Recommend for ANY requested name: the length of .DIR is unchanged and a byte changes only inside a
+record that carries the requested name (`Filename_t.Eq`). -/
+theorem recommend_request_frame (s : FS) (name : List Nat) (ctype : Nat) (mtime : Int) :
+    (recommendReq s name ctype mtime).1.bytes.length = s.bytes.length ∧
+    ∀ p, p < s.bytes.length → (recommendReq s name ctype mtime).1.bytes[p]? ≠ s.bytes[p]? →
+      fnEq name (recName (record s.bytes dirSz (p / dirSz))) = true := by
+  unfold recommendReq
+  rw [getRecordReq_eq]
+  cases hl : getRecordG true s name with
+  | fault => exact ⟨rfl, fun _ _ h => absurd rfl h⟩
+  | miss => exact ⟨rfl, fun _ _ h => absurd rfl h⟩
+  | hit i r =>
+    obtain ⟨h1, _, hr, he⟩ := getRecord_hit_spec s name i r hl
+    simp only []
+    split
+    · exact ⟨rfl, fun _ _ h => absurd rfl h⟩
+    · split
+      · exact ⟨rfl, fun _ _ h => absurd rfl h⟩
+      · split
+        · have hf := modify_frame s (i : Int) ⟨recName r, mtime, none, none, none,
+            (if ctype = 1 ∧ toInt8 (r.getD Gen.RecFile.offRecommend 0) < maxRec then 1
+             else if ctype = 2 ∧ toInt8 (r.getD Gen.RecFile.offRecommend 0) > -maxRec then -1 else 0), none, 0, 0⟩
+          refine ⟨hf.1, ?_⟩
+          intro p hp hne
+          by_cases hk : ((p / dirSz : Nat) : Int) = (i : Int) - 1
+          · have : p / dirSz = i - 1 := by omega
+            rw [this, ← hr]; exact he
+          · exact absurd (hf.2 p hp hk) hne
+        · exact ⟨rfl, fun _ _ h => absurd rfl h⟩
+
+/-- ... so a request for a name that no record carries (stale, expired, forged) is refused and
+changes nothing — whatever neighbour the search fell back to. -/
+theorem recommend_absent_refused (s : FS) (name : List Nat) (ctype : Nat) (mtime : Int)
+    (habs : ∀ k, k < s.bytes.length / dirSz → fnEq name (recName (record s.bytes dirSz k)) = false) :
+    (recommendReq s name ctype mtime).1 = s ∧ (recommendReq s name ctype mtime).2 ≠ .unit .ok := by
+  unfold recommendReq
+  rw [getRecordReq_eq]
+  cases hl : getRecordG true s name with
+  | fault => exact ⟨rfl, by simp⟩
+  | miss => exact ⟨rfl, by simp⟩
+  | hit i r =>
+    obtain ⟨h1, h2, hr, he⟩ := getRecord_hit_spec s name i r hl
+    have := habs (i - 1) (by omega)
+    rw [← hr, he] at this
+    cases this
+
+/-- the two ways bbs.DeleteArticles (article-id confirmation) can end for one id: nothing is written and
+nothing is reported as deleted, or exactly the record whose article id IS the requested id is delete-marked. -/
+theorem deleteReq_cases (s : FS) (aid : List Nat) :
+    ((deleteReqG .articleID s aid).1.bytes = s.bytes ∧ (deleteReqG .articleID s aid).2 ≠ .idx .ok 1) ∨
+    ∃ k, k < s.bytes.length / dirSz ∧ aid = C13.toArticleID (recName (record s.bytes dirSz k)) ∧
+      (deleteReqG .articleID s aid).1 = (deleteRecord s dirSz (k : Int)).1 := by
+  unfold deleteReqG
+  cases C13.articleIDToRaw aid with
+  | error e => left; exact ⟨rfl, by simp⟩
+  | ok fname =>
+    simp only []
+    cases C13.fnCreateTime fname with
+    | none => left; exact ⟨rfl, by simp⟩
+    | some ct =>
+      simp only []
+      by_cases hc : (if s.present = true then s.bytes.length / dirSz else 0) = 0
+      · rw [if_pos hc]; left; exact ⟨rfl, by simp⟩
+      · rw [if_neg hc]
+        have hp : s.present = true := by
+          cases hpp : s.present with
+          | true => rfl
+          | false => simp [hpp] at hc
+        simp only [hp, if_true] at hc ⊢
+        generalize C06.findRecordStartIdx _ _ _ _ _ = res
+        cases res with
+        | error e => cases e <;> (left; exact ⟨rfl, by simp⟩)
+        | ok start =>
+          simp only []
+          by_cases hst : 1 ≤ (if start = 0 then ((s.bytes.length / dirSz : Nat) : Int) else start) ∧
+              (if start = 0 then ((s.bytes.length / dirSz : Nat) : Int) else start) ≤ ((s.bytes.length / dirSz : Nat) : Int)
+          · rw [if_pos hst]
+            by_cases hsame : aid = C13.toArticleID (recName (record s.bytes dirSz
+                ((if start = 0 then ((s.bytes.length / dirSz : Nat) : Int) else start).toNat - 1)))
+            · simp only [hsame, decide_true, if_true]
+              rw [← hsame]
+              by_cases h0 : start = 0
+              · subst h0
+                left
+                unfold deleteRecord
+                rw [writeRecordAt_neg s dirSz (0 - 1) safeDelMark dirSz_pos (by omega)]
+                constructor <;> simp
+              · right
+                simp only [h0, if_false] at hst hsame
+                obtain ⟨k, rfl⟩ : ∃ k : Nat, start = (k : Int) + 1 := ⟨(start - 1).toNat, by omega⟩
+                refine ⟨k, by omega, ?_, ?_⟩
+                · have : ((k : Int) + 1).toNat - 1 = k := by omega
+                  rw [this] at hsame; exact hsame
+                · have : (k : Int) + 1 - 1 = (k : Int) := by omega
+                  rw [this]
+            · simp only [hsame, decide_false, Bool.false_eq_true, if_false]
+              left; constructor <;> simp
+          · rw [if_neg hst]; left; exact ⟨rfl, by simp⟩
+
+/-- bbs.DeleteArticles for ANY requested id: .DIR keeps its length and a byte changes only inside a record
+whose article id is the requested id. -/
+theorem delete_request_frame (s : FS) (aid : List Nat) :
+    (deleteReq s aid).1.bytes.length = s.bytes.length ∧
+    ∀ p, p < s.bytes.length → (deleteReq s aid).1.bytes[p]? ≠ s.bytes[p]? →
+      C13.toArticleID (recName (record s.bytes dirSz (p / dirSz))) = aid := by
+  unfold deleteReq
+  rw [delConfirm_eq]
+  rcases deleteReq_cases s aid with ⟨h, _⟩ | ⟨k, hk, hid, h⟩
+  · rw [h]; exact ⟨rfl, fun _ _ hne => absurd rfl hne⟩
+  · rw [h]
+    refine ⟨(delete_marks s dirSz k mark_le_dirSz hk).2, ?_⟩
+    intro p hp hne
+    by_cases hpk : ((p / dirSz : Nat) : Int) = (k : Int)
+    · have : p / dirSz = k := by omega
+      rw [this]; exact hid.symm
+    · exact absurd ((delete_frame s dirSz (k : Int) dirSz_pos mark_le_dirSz).2 p hp hpk) hne
+
+/-- a delete request for an id that no record carries (stale / forged id, e.g. a same-second sibling of
+existing articles) delete-marks nothing and reports nothing as deleted. -/
+theorem delete_absent_refused (s : FS) (aid : List Nat)
+    (habs : ∀ k, k < s.bytes.length / dirSz → C13.toArticleID (recName (record s.bytes dirSz k)) ≠ aid) :
+    (deleteReq s aid).1.bytes = s.bytes ∧ (deleteReq s aid).2 ≠ .idx .ok 1 := by
+  unfold deleteReq
+  rw [delConfirm_eq]
+  rcases deleteReq_cases s aid with h | ⟨k, hk, hid, _⟩
+  · exact h
+  · exact absurd hid.symm (habs k hk)
+
+/-- "M.1500000000.A.00" followed by one more suffix digit, as a 28-byte Filename_t. -/
+def wName (d : Nat) : List Nat :=
+  [77, 46, 49, 53, 48, 48, 48, 48, 48, 48, 48, 48, 46, 65, 46, 48, 48, d] ++ List.replicate 10 0
+
+/-- a .DIR with two articles of the same second: suffixes 001 and 002. -/
+def wDir : FS := ⟨true, wName 49 ++ List.replicate 100 0 ++ (wName 50 ++ List.replicate 100 0)⟩
+
+/-- witness for the broken rule of C05-r4-1: without the `Eq` confirmation the lookup of the absent name
+`…A.003` answers with a neighbour, with it the request is a miss. -/
+theorem unconfirmed_lookup_hits_neighbour :
+    getRecordG false wDir (wName 51) = .hit 2 (record wDir.bytes dirSz 1) ∧
+    getRecordG true wDir (wName 51) = .miss := by
+  decide +kernel
+
+/-- witness for the broken rule of C05-r4-2: confirming the hit by its create-time only, a delete request
+for the absent third sibling `…A.003` (id "1PQ2y003") delete-marks one of the two present siblings and
+reports success; with the article-id confirmation nothing happens. -/
+theorem createtime_confirmation_deletes_sibling :
+    (deleteReqG .createTime wDir [49, 80, 81, 50, 121, 48, 48, 51]).2 = .idx .ok 1 ∧
+    (deleteReqG .createTime wDir [49, 80, 81, 50, 121, 48, 48, 51]).1.bytes ≠ wDir.bytes ∧
+    deleteReqG .articleID wDir [49, 80, 81, 50, 121, 48, 48, 51] = (wDir, .idx .ok 0) := by
+  decide +kernel
+
 end PttVerif.C05.Props
